@@ -17,6 +17,31 @@ def report(R, f_default, findings, site_of=None):
         R.fail(fd.rule, f.site, fd.construct or (st.text if st is not None else ""), fd.msg, where=where, expected=fd.expected, found=fd.found)
 
 
+def run_kernel_forks(repo, R, qual, extra_env_factory=None, if_handler_factory=None):
+    """Like run_kernel, once per outcome of every undecided scalar branch.  -> f, [(tag, extractor or None)] (one entry on the
+    unmodified tree)."""
+    from ..kernels import run_public_forks
+    f = repo.func(qual)
+    R.note_function(f.qualname)
+    out = []
+    for choices, ex in run_public_forks(repo, f, extra_env_factory, if_handler_factory):
+        tag = "".join(f"[{k}={'T' if v else 'F'}]" for k, v in sorted(choices.items()))
+        if isinstance(ex, LabelMismatch):
+            lm = ex
+            g = f
+            for cand in repo.all_functions():
+                if any(n is lm.node for n in ast.walk(cand.node)):
+                    g = cand
+            R.fail("AXTYPE-K", g.site, ast.unparse(lm.node)[:100], f"{tag} axes of different provenance are combined: {lm.msg}", where=g.where(lm.node),
+                   expected="aligned/contracted axes of equal provenance")
+            out.append((tag, None))
+            continue
+        for sub in ex.all_extractors():
+            R.note_function(sub.func.qualname)
+        out.append((tag, ex))
+    return f, out
+
+
 def run_kernel(repo, R, qual, extra_env=None, if_handler=None):
     f = repo.func(qual)
     R.note_function(f.qualname)
